@@ -8,6 +8,18 @@ Core Lean only.
 -/
 namespace Bpp.ParamList
 
+/-- specification of the out-vector of `matchParametersValues`, read off the state *before* the
+call: the source positions (counted from `pos`) whose name is in `l` and whose value differs from
+the target's -/
+def diffPos (h : Store) (l : List ObjId) (pos : Nat) : List ObjId → List Nat
+  | [] => []
+  | s :: rest =>
+    match find? h l (nameOf h s) with
+    | none => diffPos h l (pos + 1) rest
+    | some t =>
+      if (h.get t).value ≠ (h.get s).value then pos :: diffPos h l (pos + 1) rest
+      else diffPos h l (pos + 1) rest
+
 /-- names of register `k` are pairwise different -/
 def namesUniqueB (s : State) (k : Nat) : Bool := decide (names s.heap (s.lists k)).Nodup
 
